@@ -687,12 +687,30 @@ func c49QueryDiff(m *rwModel, exp, obs []string) (key, what string) {
 			return c49DelKey(m.DeletedBy[extra[0]], p), fmt.Sprintf("deleted key %q still present as %q", p.Key, p.Raw)
 		}
 	}
+	for _, a := range m.Applied {
+		if a != "QUERY_RENAME" {
+			continue
+		}
+		for e, n := range cnt {
+			if n > 0 && strings.Contains(e, ";") {
+				return "effect/QUERY_RENAME/semicolon-element", "element containing ';' not renamed (renamed form " + e + " missing)"
+			}
+		}
+	}
 	if missing > 0 && len(m.DeletedBy) > 0 && len(extra) == 0 {
 		return "query-del/other-parameter-lost", "a parameter that was not to be deleted is gone"
 	}
 	for _, a := range m.Applied {
 		if a == "QUERY_RENAME" {
-			for _, x := range extra {
+			// an element with ';' that was not renamed shows up as itself (extra) or, when a
+			// later action removed it under its old name, only as a missing renamed element
+			cand := append([]string(nil), extra...)
+			for e, n := range cnt {
+				if n > 0 {
+					cand = append(cand, e)
+				}
+			}
+			for _, x := range cand {
 				if strings.Contains(x, ";") {
 					return "effect/QUERY_RENAME/semicolon-element", "element containing ';' not renamed"
 				}
